@@ -107,13 +107,31 @@ def reuse_case(rng: Rng):
                     x.op(f"cancel {who} {a} {b}")
                     x.drain(who)
             lk.after_op = hook
+        elif rng.chance(0.3):
+            # the user abandons the running transaction with the public reset() while PDUs it has just queued
+            # are still unretrieved (they stay retrievable; the handler is idle and as good as new)
+            at = rng.randrange(1, 25)
+            who = rng.choice("SDD")
+
+            def rhook(x, h, st, state={"n": 0}):
+                state["n"] += 1
+                if state["n"] >= at and h == who and st.ok and st.state == "BUSY" and st.rdy > 0:
+                    x.after_op = None
+                    x.op(f"reset {who}")
+            lk.after_op = rhook
         lk.run(max_rounds=120, max_ticks=40)
         # end of history: whatever happened, the user drains both queues; a transaction that is still
         # running is ended with the public reset() (abandoned by the user)
+        # (in half of these cases the reset comes while PDUs are still unretrieved: a timer interval passes, one
+        # more call queues what the expiry produces, and the user resets before retrieving it)
         for h in "SD":
             lk.drain(h)
             if not lk.idle(h):
-                lk.op(f"reset {h}")
+                if rng.chance(0.5):
+                    lk.op(f"tick {max(int(hc.ack.split('/')[0]), int(hc.nak.split('/')[0]), hc.chkms)}")
+                    lk.sm(h)
+                if not lk.idle(h):
+                    lk.op(f"reset {h}")
                 lk.drain(h)
     s = lh.sess
     left_over = None
